@@ -148,6 +148,10 @@ def run(F, R, tier):
         g = guards_at(F, c)
         ok = any(x.kind == "cond" and x.pol and any(ctor_of(y) == "graph::GraphKind::TypesOnly" for y in walk(x.node)) for x in g)
         R.ob("C15-b", "a module is skipped only in types-only walks", ok, "`continue` (skip yielding a module) is not guarded by kind == TypesOnly", where(c))
+        sub = any(x.kind == "pat" and x.pol and "graph::Resolution::Ok" in pat_text(x.pat) for x in g) or any(x.kind == "pat" and x.pol and any(y.get("k") == "MethodCall" and y["name"] in ("ok", "maybe_specifier") for y in walk(x.scrut)) for x in g)
+        unchk = any(x.kind == "cond" and not x.pol and (x.node.get("fn") or "").endswith("is_checkable") for x in g)
+        R.ob("C15-b", "a code module is replaced by its types dependency only when that dependency resolved (else only unchecked JS is skipped)", sub or unchk,
+             "a module is skipped in a types-only walk although its types dependency did not resolve: the failed types resolution and everything behind the module disappear from the walk", where(c))
     # fast check deps
     fc = [n for n in nx["_nodes"] if callee_matches(n, ["Module::dependencies_prefer_fast_check"])]
     R.floor("C15-b fast-check dependency selection", len(fc), 1)
